@@ -5,17 +5,22 @@
 //!   <chunks>  `-` | `7,1,300`  chunk schedule for short transfers (Dev::with_chunks; implementation only)
 //!   <flags>   `-` | comma separated: nofin (drop the writer without the top-level finalize),
 //!             stop (stop after the first call that returns an error or panics), log (print the write log),
-//!             dump (print the device bytes)
+//!             dump (print the device bytes), finx (the implicit last finalize goes through
+//!             finalize_customized_xml(Ok) instead of finalize()), xfin (no implicit last finalize: the
+//!             top-level finalize calls are the FIN / FINX items)
 //!   <dev>     hex | @name (BASE image)
 //!
 //! CWLOG <fault> <chunks> <flags> item... [X:<xmlhex> ignored]
 //!   items  B:<hex> | I:<v|p|s|c>:<hex>:<maskhex|-> | P:<proto>:<points>
 //!          PD:<proto>:<points>           point-cloud writer dropped without its finalize
 //!          ID:<v|p|s|c>:<hex>:<maskhex|-> image writer dropped without its finalize
+//!          FIN | FINX                    top-level finalize() / finalize_customized_xml(Ok) in the middle of the
+//!                                        program (calls after a successful one must be refused and write nothing)
 //!   prints one token per call: `o` new, `b<off>:<len>` blob, `b<off>:<len>[ b<off>:<len>]` image (`b?:<len>` while
 //!   the offset is not known: the file was not finalized), `p<off>:<n>` (`p?:<n>`), `d<n>` dropped point-cloud writer,
 //!   `e<Kind>`, `P`, then `o` for finalize, then
-//!   ` | ops= len= h= wlog= finops=<ops when the last call returned (Drop follows)|-> logmark=<log length when finalize was called|-> callops=<ops after each call>`
+//!   ` | ops= len= h= wlog= finops=<ops when the last call returned (Drop follows)|-> logmark=<log length when the first top-level finalize was called|->
+//!     finlog=<log length when the first successful top-level finalize returned|-> callops=<ops after each call>`
 //!   `[ log=<pos>:<hex>,...] [ dev=<hex>] xml=<hex>`
 //! CRD <fault> <chunks> <dev> [B:<off>:<len>...]      (implementation only)
 //!   open, list point clouds and images, read every point cloud raw, every image blob, the given blobs:
@@ -128,13 +133,14 @@ fn image_blobs(img: &e57::Image, kind: &str) -> Option<(Blob, Option<Blob>)> {
     }
 }
 
-fn trailer(dev: &Dev, finops: Option<u64>, logmark: Option<usize>, callops: &[u64], flags: &[&str], xml_hex: &str) -> String {
+fn trailer(dev: &Dev, finops: Option<u64>, logmark: Option<usize>, finlog: Option<usize>, callops: &[u64], flags: &[&str], xml_hex: &str) -> String {
     let o = |x: Option<String>| x.unwrap_or_else(|| "-".to_string());
     let mut s = format!(
-        "{} finops={} logmark={} callops={}",
+        "{} finops={} logmark={} finlog={} callops={}",
         dev_summary(dev),
         o(finops.map(|x| x.to_string())),
         o(logmark.map(|x| x.to_string())),
+        o(finlog.map(|x| x.to_string())),
         callops.iter().map(|x| x.to_string()).collect::<Vec<_>>().join(",")
     );
     if flags.contains(&"log") {
@@ -153,16 +159,17 @@ fn run_cwlog(toks: &[&str]) -> String {
     let fault = fault_of(toks[0]);
     let chunks = chunks_of(toks[1]);
     let flags: Vec<&str> = toks[2].split(',').collect();
-    let nofin = flags.contains(&"nofin");
+    let nofin = flags.contains(&"nofin") || flags.contains(&"xfin");
+    let finx = flags.contains(&"finx");
     let stop = flags.contains(&"stop");
     let dev = Dev::new(Vec::new(), fault).with_chunks(chunks);
     let w = guard(|| E57Writer::new(dev.clone(), "file-guid"));
     let mut w = match w {
-        None => return format!("new:P | {}", trailer(&dev, None, None, &[], &flags, "")),
+        None => return format!("new:P | {}", trailer(&dev, None, None, None, &[], &flags, "")),
         Some(Err(e)) => {
             // the model distinguishes PagedWriter::new (one device operation) from the header write
             let first = if fault == Some(0) { "new:e" } else { "e" };
-            return format!("{}{} | {}", first, err_name(&e), trailer(&dev, None, None, &[], &flags, ""));
+            return format!("{}{} | {}", first, err_name(&e), trailer(&dev, None, None, None, &[], &flags, ""));
         }
         Some(Ok(w)) => w,
     };
@@ -172,6 +179,9 @@ fn run_cwlog(toks: &[&str]) -> String {
     let mut pc_slots: Vec<usize> = Vec::new();
     let mut img_slots: Vec<(usize, String, bool)> = Vec::new();
     let mut stopped = false;
+    let mut logmark = None;
+    let mut finlog = None;
+    let mut fin_ok = false;
     for t in &toks[3..] {
         if t.starts_with("X:") {
             continue;
@@ -227,6 +237,18 @@ fn run_cwlog(toks: &[&str]) -> String {
                 }
                 o
             }
+            "FIN" | "FINX" => {
+                if logmark.is_none() {
+                    logmark = Some(dev.0.borrow().log.len());
+                }
+                let r = if parts[0] == "FINX" { guard(|| w.finalize_customized_xml(Ok)) } else { guard(|| w.finalize()) };
+                let o = res_s(r, |_| "o".to_string());
+                if o == "o" && finlog.is_none() {
+                    finlog = Some(dev.0.borrow().log.len());
+                    fin_ok = true;
+                }
+                o
+            }
             _ => panic!("bad item"),
         };
         let failed = is_failure(&o);
@@ -237,12 +259,14 @@ fn run_cwlog(toks: &[&str]) -> String {
             break;
         }
     }
-    let mut logmark = None;
-    let mut fin_ok = false;
     if !nofin && !stopped {
         logmark = Some(dev.0.borrow().log.len());
-        let o = res_s(guard(|| w.finalize()), |_| "o".to_string());
+        let r = if finx { guard(|| w.finalize_customized_xml(Ok)) } else { guard(|| w.finalize()) };
+        let o = res_s(r, |_| "o".to_string());
         fin_ok = o == "o";
+        if fin_ok {
+            finlog = Some(dev.0.borrow().log.len());
+        }
         outs.push(o);
         callops.push(dev.ops());
     }
@@ -276,7 +300,7 @@ fn run_cwlog(toks: &[&str]) -> String {
             }
         }
     }
-    format!("{} | {}", outs.join(" "), trailer(&dev, finops, logmark, &callops, &flags, &xml_hex))
+    format!("{} | {}", outs.join(" "), trailer(&dev, finops, logmark, finlog, &callops, &flags, &xml_hex))
 }
 
 /// all points, untruncated (the crash oracle compares point prefixes)
